@@ -86,6 +86,8 @@ fn compile_data_expr(ir: &tir::Expression) -> Result<primitives::PlutusData, Err
         tir::Expression::Struct(x) => compile_struct(x),
         tir::Expression::Map(x) => x.try_as_data(),
         tir::Expression::Address(x) => Ok(x.as_data()),
+        // a policy used as a value (`D { owner: SomePolicy, }`), as inside lists and maps
+        tir::Expression::Hash(x) => Ok(x.as_data()),
         tir::Expression::List(x) => x.try_as_data(),
         _ => Err(Error::CoerceError(
             format!("{ir:?}"),
